@@ -194,6 +194,25 @@ pub fn case_child(args: &Args) {
     c.protocol.max_offers = max_offers;
     c.cleaning.torrent_cleaning_interval = 100_000;
     c.cleaning.connection_cleaning_interval = 100_000;
+    // torrents (3 routing bytes) are drawn here so that the access list can name one of them
+    let pool: Vec<[u8; 20]> = (0..3u8)
+        .map(|i| {
+            let mut h = [0u8; 20];
+            for b in h.iter_mut() {
+                *b = 0x30 + rng.below(60) as u8;
+            }
+            h[0] = i + 1;
+            h
+        })
+        .collect();
+    let acl_mode = *rng.pick(&[0u8, 0, 1, 2]);
+    if acl_mode != 0 {
+        let path = format!("/verif/.cache/scratch/ws-sys-acl-{}.txt", std::process::id());
+        std::fs::create_dir_all("/verif/.cache/scratch").unwrap();
+        std::fs::write(&path, format!("{}\n", pool[0].iter().map(|b| format!("{:02x}", b)).collect::<String>())).unwrap();
+        c.access_list.path = path.into();
+        c.access_list.mode = if acl_mode == 1 { aquatic_common::access_list::AccessListMode::Allow } else { aquatic_common::access_list::AccessListMode::Deny };
+    }
     std::thread::spawn(move || {
         let r = aquatic_ws::run(c);
         eprintln!("tracker returned: {:?}", r.err());
@@ -215,18 +234,16 @@ pub fn case_child(args: &Args) {
         let _ = w.ws.read();
         let _ = w.ws.close(None);
     }
-    println!("HEADER {}, {}, {}, {}", cq::nat(sw), cq::nat(k), cq::nat(max_scrape), cq::nat(max_offers));
-    // 3 torrents on different first bytes; 5 client slots; connection i uses peer id P_i
-    let pool: Vec<[u8; 20]> = (0..3u8)
-        .map(|i| {
-            let mut h = [0u8; 20];
-            for b in h.iter_mut() {
-                *b = 0x30 + rng.below(60) as u8;
-            }
-            h[0] = i + 1;
-            h
-        })
-        .collect();
+    println!(
+        "HEADER {}, {}, {}, {}, {}, {}",
+        cq::nat(sw),
+        cq::nat(k),
+        cq::nat(max_scrape),
+        cq::nat(max_offers),
+        match acl_mode { 0 => "AclOff", 1 => "AclAllow", _ => "AclDeny" },
+        if acl_mode == 0 { "[]".to_string() } else { cq::list(&[cq::id20(&pool[0])]) }
+    );
+    // 3 torrents on different first bytes (drawn above); 5 client slots; connection i uses peer id P_i
     let pids: Vec<[u8; 20]> = (0..5u8).map(|i| [0x41 + i; 20]).collect();
     let offer_id = |n: u8| -> [u8; 20] { [0x61 + n; 20] };
     let mut clients: Vec<Option<Client>> = (0..5).map(|_| None).collect();
